@@ -32,7 +32,8 @@ CHECKS = {
         ref='3 C02'),
     'C03': dict(
         text='All strings over {a,b} up to length 5 (7 thorough) and {a,b,c} up to 4 as complete tables, '
-             'packed tiny string tables, x q x padding x return_set x thresholds x operators x n_jobs; '
+             'packed tiny string tables, complete radius-2 edit balls around three 12-character words '
+             '(thresholds up to 5), x q x padding x return_set x thresholds x operators x n_jobs; '
              'oracle DP Levenshtein + shares-a-q-gram.',
         note='Trusted: py_stringmatching QgramTokenizer for the shares-a-q-gram predicate; textbook DP.',
         technique='explicit enumeration of string universes on the real edit_distance_join + reference model',
@@ -40,8 +41,8 @@ CHECKS = {
     'C04': dict(
         text='filter_pair on all ordered pairs of subsets of 8 tokens, the arithmetic layer (m,n,o_min) up '
              'to 64/128 tokens on the real filter_pair, edit-distance string universes, filter_tables on '
-             'complete universes and packed tiny tables, filter_candset on full cross products; '
-             'SuffixFilter defects are a recorded known finding with an explicit case list.',
+             'complete universes and packed tiny tables, filter_candset on full cross products, float-typed '
+             'count thresholds, re-used filter objects; SuffixFilter defects are a recorded known finding with an explicit case list.',
         note='Trusted: reference similarity; the tokenizer returns sets for set measures (as the statement '
              'assumes).',
         technique='explicit enumeration of pairs/tables on the real filters + reference model; lemma self-test',
@@ -121,7 +122,8 @@ CHECKS = {
     'C15': dict(
         text='Validation matrix entry point x invalid-argument kind (and pairs of kinds) x context with '
              'no-work counters (tokenize calls, Parallel launches) and argument/tokenizer fingerprints; '
-             'valid degenerate shapes and dtypes must return a DataFrame.',
+             'valid degenerate shapes and dtypes (every filter x every measure, int and float thresholds) '
+             'must return a DataFrame.',
         note='Documented exception mapping from the statement.',
         technique='explicit enumeration of the argument-validity matrix on the real entry points',
         ref='3 C15'),
@@ -133,9 +135,10 @@ CHECKS = {
         ref='3 C16'),
     'C17': dict(
         text='All columns of length 1..6 over {a,b,c,missing} x attr subsets x dtypes plus the large-shape '
-             'alphabet around 20 000 rows; exact counts, percentages and comment rules.',
+             'alphabet around 20 000 rows; exact counts, percentages and comment rules; all histories of '
+             '<= 3 calls over valid and failing calls.',
         note='A column holds one kind of missing marker.',
-        technique='explicit enumeration of columns on the real profiler + reference model',
+        technique='explicit enumeration of columns and of bounded call histories on the real profiler + reference model',
         ref='3 C17'),
 }
 
